@@ -11,7 +11,9 @@ import (
 	"hzcheck/core"
 )
 
-func init() { register("C05", c05Taint, c05Sanitiser, c05Single, c05Retain, c05Fresh, c09Siblings) }
+func init() {
+	register("C05", c05RetainTrailer, c05Taint, c05Sanitiser, c05Single, c05Retain, c05Fresh, c09Siblings)
+}
 
 // header serialiser roots: the AppendBytes methods of the three header-block types
 var c05Roots = [][2]string{{"RequestHeader", "AppendBytes"}, {"ResponseHeader", "AppendBytes"}, {"Trailer", "AppendBytes"}}
